@@ -1172,18 +1172,19 @@ def interpreted_com_setup(repo):
             continue
         out["requests"][label] = ("ok", {"do_remove_com": selfns.do_remove_com, "angular": selfns.remove_com_angular, "stride": selfns.remove_com_stride, "constraints": cap.get("constraints")})
     for cls in ("Molecular_Dynamics_Basic", "Molecular_Dynamics_Langevin", "XL_BOMD"):
-        q = f"{cls}.set_dof"
-        if not md.has_func(q):
+        if cls not in md.classes:
             continue
         for damp in (None, sp.Integer(50)):
             for c in (sp.Integer(0), sp.Integer(3), sp.Integer(6)):
-                selfns = types.SimpleNamespace(damp=damp, n_dof=None)
+                from .npsym import Instance as _Inst
+                selfns = _Inst(md, cls, damp=damp, n_dof=None)
                 np_ = __import__("numpy")
                 # a padded batch: 5 real atoms in molecules of padded size 7
                 spc = np_.array([[8, 6, 6, 1, 1, 0, 0], [7, 6, 1, 1, 1, 0, 0]])
                 mol = types.SimpleNamespace(num_atoms=np_.array([5, 5]), molsize=7, nmol=2, species=spc, coordinates=np_.full((2, 7, 3), sp.Integer(0), dtype=object),
                                             mass=np_.where(spc[..., None] > 0, sp.Integer(12), sp.Integer(0)).astype(object), Z=spc[spc > 0])
-                NpSym(repo).call_function(md, md.func(q), [selfns, mol, c])
+                I_ = NpSym(repo)
+                I_.class_attribute(md, cls, "set_dof", selfns)(None, mol, c)      # the implementation the class resolves to (own or inherited)
                 nd = selfns.n_dof
                 nd = nd.reshape(-1)[0] if hasattr(nd, "reshape") else nd
                 out["dof"][(cls, damp is not None, int(c))] = sp.nsimplify(nd)
